@@ -484,7 +484,7 @@ def run(ctx):
     ctx.mc("MC_RelationsL0.tla", "MC_RelationsL0%s.cfg" % tag)
     pairs = spec_pairs(ctx)
     jobs = build_jobs(ctx, pairs)
-    recs = pool.run_jobs(__name__, jobs, reuse=True, abort=True)
+    recs = pool.run_jobs(__name__, jobs, reuse=True, abort=True)   # (no strict_fp: transitivity of a graph without a connected triple is 0/0 by definition)
     verdicts = ctx.validate(*rc.TRACE, recs, tag="c10")
     bad = [(j["fn"], v[0]) for j, v in zip(jobs, verdicts) if v[0] in BAD_SKIPS]
     if bad:
